@@ -67,3 +67,21 @@ Theorem C21_copy_until_eof_refuted :
   exists (hdr gzs : list N) (cut : nat), (cut < length hdr + length gzs)%nat /\ old_client_compressed (length hdr) (firstn cut (hdr ++ gzs)) = true.
 Proof. exact old_client_refuted. Qed.
 Print Assumptions C21_copy_until_eof_refuted.
+
+(* the binary backup holds the snapshot gate for the whole copy, whatever the WAL held at the start: a
+   checkpoint requested in that window is refused and leaves the file alone *)
+Theorem C21_gate_held_during_copy : forall snap_ok chunks sched w0 w j,
+  run (bin_step true snap_ok chunks) sched (w0, BSnap) = (w, BCopy j) ->
+  checkpoint_refused w = true /\ env_step ECheckpoint w = w.
+Proof. exact gate_held_during_copy. Qed.
+Print Assumptions C21_gate_held_during_copy.
+
+Theorem C21_dump_never_holds_gate : forall in_tx tables sched w0 w ph,
+  gate w0 = false -> run (dump_step in_tx tables) sched (w0, DBegin) = (w, ph) -> checkpoint_refused w = false.
+Proof. exact dump_never_holds_gate. Qed.
+Print Assumptions C21_dump_never_holds_gate.
+
+Theorem C21_online_never_holds_gate : forall sched w0 w ph,
+  gate w0 = false -> run online_step sched (w0, OStep) = (w, ph) -> checkpoint_refused w = false.
+Proof. exact online_never_holds_gate. Qed.
+Print Assumptions C21_online_never_holds_gate.
